@@ -1369,3 +1369,84 @@ func SpecRdbBuffered(r *memoryRdb) int64 { panic("abstract spec function") }
 //@ func parseBisyncMarkerCommand(cmd) (m, ok)
 //@   trusted frame: decodes a marker into a fresh object
 //@   modifies nothing
+
+// ---- memory cache: which offsets it says it can serve (C05, C06, C16; index level) -------------
+// The log the cache can serve is the maximal CONTIGUOUS SUFFIX of its segments (an evicted segment in
+// the middle makes everything in front of the hole unreachable for a reader that must continue to
+// the live end). SpecSegRight(seg) is the right end of a segment: left + bytes appended so far
+// (abstract; assumed not to move while one of these functions runs - appends are serialised by the
+// channel's lock, which every caller of a *Locked function holds).
+func SpecSegRight(seg *memorySegment) int64 { panic("abstract spec function") }
+
+//@ spec SpecSegRight abstract
+//@ func memorySegment.right(self) (r)
+//@   trusted abstract: the right end of the segment (left + appended bytes)
+//@   modifies nothing
+//@   ensures def: r == SpecSegRight(self)
+
+//@ pred contiguousFrom(mc, s): forall k int :: s <= k && k + 1 < len(mc.aofSegs) ==> SpecSegRight(mc.aofSegs[k]) == mc.aofSegs[k + 1].left
+
+//@ func MemoryChannel.continuousAofStartIndexLocked
+//@   arith int
+//@   properties C05 C06 C16
+//@   nopanic
+//@   requires nonnil: mc != nil && (forall k int :: 0 <= k && k < len(mc.aofSegs) ==> mc.aofSegs[k] != nil)
+//@   modifies nothing
+//@   ensures empty: len(mc.aofSegs) == 0 <==> result == 0 - 1
+//@   ensures in_range: len(mc.aofSegs) > 0 ==> 0 <= result && result < len(mc.aofSegs)
+//@   ensures the_suffix_from_there_is_contiguous: result >= 0 ==> contiguousFrom(mc, result)
+//@   ensures and_it_is_the_longest_one: result > 0 ==> SpecSegRight(mc.aofSegs[result - 1]) != mc.aofSegs[result].left
+//@   loop 1:
+//@     invariant scan: 0 - 1 <= i && i < start && start < len(mc.aofSegs) && left == mc.aofSegs[start].left && contiguousFrom(mc, start) && (i + 1 < start ==> false)
+
+//@ func MemoryChannel.indexContinuousAofLocked
+//@   arith int
+//@   properties C05 C06 C16
+//@   nopanic
+//@   requires nonnil: mc != nil && (forall k int :: 0 <= k && k < len(mc.aofSegs) ==> mc.aofSegs[k] != nil)
+//@   modifies nothing
+//   foundAt  index of the segment looked at last (ghost witness for callers)
+//@   ghost var foundAt mathint
+//@   set foundAt = i after store aof
+//@   ensures a_segment_found_holds_the_offset_and_lies_behind_every_hole: result != nil ==> 0 <= foundAt && foundAt < len(mc.aofSegs) && mc.aofSegs[foundAt] == result && contiguousFrom(mc, foundAt) && result.left <= offset && offset <= SpecSegRight(result)
+//@   loop 1:
+//@     invariant behind_every_hole: 0 - 1 <= i && i < len(mc.aofSegs) && (start >= 0 ==> contiguousFrom(mc, start)) && (i >= start && i >= 0 ==> contiguousFrom(mc, i))
+
+//@ func MemoryChannel.continuousAofRangeLocked
+//@   arith int
+//@   properties C05 C06 C16
+//@   nopanic
+//@   requires nonnil: mc != nil && (forall k int :: 0 <= k && k < len(mc.aofSegs) ==> mc.aofSegs[k] != nil)
+//@   modifies nothing
+//@   ensures none: !result2 <==> len(mc.aofSegs) == 0
+//@   ensures the_range_is_the_contiguous_suffix: result2 ==> (exists s int :: 0 <= s && s < len(mc.aofSegs) && contiguousFrom(mc, s) && result0 == mc.aofSegs[s].left) && result1 == SpecSegRight(mc.aofSegs[len(mc.aofSegs) - 1])
+
+//@ func MemoryChannel.inRangeLocked
+//@   arith int
+//@   properties C05 C06 C16
+//@   nopanic
+//@   requires nonnil: mc != nil && (forall k int :: 0 <= k && k < len(mc.aofSegs) ==> mc.aofSegs[k] != nil)
+//@   modifies foundAt
+//@   ensures an_offset_called_valid_is_served_by_the_snapshot_or_lies_in_the_log_behind_every_hole: result ==> (mc.rdb != nil && mc.rdb.replayable && offset <= mc.rdb.left) || (0 <= foundAt && foundAt < len(mc.aofSegs) && contiguousFrom(mc, foundAt) && mc.aofSegs[foundAt].left <= offset && offset <= SpecSegRight(mc.aofSegs[foundAt]))
+//@   ensures an_offset_the_snapshot_serves_is_valid: mc.rdb != nil && mc.rdb.replayable && offset <= mc.rdb.left ==> result
+
+//@ func MemoryChannel.rangeLocked
+//@   arith int
+//@   properties C05 C06 C16
+//@   nopanic
+//@   requires nonnil: mc != nil && (forall k int :: 0 <= k && k < len(mc.aofSegs) ==> mc.aofSegs[k] != nil)
+//@   modifies nothing
+//@   ensures empty_cache: mc.rdb == nil && len(mc.aofSegs) == 0 ==> result0 == 0 - 1 && result1 == 0 - 1
+//@   ensures the_log_range_is_the_contiguous_suffix: len(mc.aofSegs) > 0 ==> (exists s int :: 0 <= s && s < len(mc.aofSegs) && contiguousFrom(mc, s) && result0 == mc.aofSegs[s].left) && result1 == SpecSegRight(mc.aofSegs[len(mc.aofSegs) - 1])
+//@   ensures snapshot_only: len(mc.aofSegs) == 0 && mc.rdb != nil && mc.rdb.replayable ==> result0 == mc.rdb.left && result1 == mc.rdb.left
+//@   ensures a_snapshot_not_on_offer_gives_no_range: len(mc.aofSegs) == 0 && mc.rdb != nil && !mc.rdb.replayable ==> result0 == 0 - 1 && result1 == 0 - 1
+
+//@ func MemoryChannel.latestOffsetLocked
+//@   arith int
+//@   properties C05 C06 C16
+//@   nopanic
+//@   requires nonnil: mc != nil && (forall k int :: 0 <= k && k < len(mc.aofSegs) ==> mc.aofSegs[k] != nil)
+//@   modifies nothing
+//@   ensures log_end: len(mc.aofSegs) > 0 ==> result == SpecSegRight(mc.aofSegs[len(mc.aofSegs) - 1])
+//@   ensures snapshot_only: len(mc.aofSegs) == 0 && mc.rdb != nil ==> result == mc.rdb.left
+//@   ensures nothing: len(mc.aofSegs) == 0 && mc.rdb == nil ==> result == 0 - 1
